@@ -122,13 +122,19 @@ func genC08(r *gen.Rand) *C08Case {
 	cfg := c08Prog(r)
 	child := gen.ChildCfg{Tree: cfg.Tree, Edits: r.Range(1, 3), PUseless: 0.05}
 	c.Tool = "bkl"
-	switch r.Intn(10) {
+	switch r.Intn(12) {
 	case 0:
 		c.Tool = "bkld"
 	case 1:
 		c.Tool = "bkli"
 	case 2:
 		c.Tool = "bklr"
+	case 3:
+		// the wrappers, around cat: what they hand to the wrapped program
+		// comes out on stdout, so the same trichotomy applies
+		c.Tool = "bklb"
+	case 4:
+		c.Tool = "kubectl-bkl"
 	}
 	base := r.Pick("a", "cfg", "app")
 	// layer chain
@@ -269,7 +275,7 @@ func genC08(r *gen.Rand) *C08Case {
 			c.Faults = append(c.Faults, "input:format-features")
 			continue
 		}
-		w.Files = append(w.Files, procsim.File{Path: p, Docs: treeDocs(docs...)})
+		w.Files = append(w.Files, procsim.File{Path: p, Docs: treeDocs(docs...), EscDollar: r.Chance(0.06)})
 		names = append(names, name+"."+ext)
 	}
 	top := names[len(names)-1]
@@ -339,8 +345,28 @@ func genC08(r *gen.Rand) *C08Case {
 		}
 	case "bklr":
 		inv.Args = append(inv.Args, input)
+	case "bklb", "kubectl-bkl":
+		if c.Tool == "bklb" {
+			inv.Argv0 = "catb"
+		} else {
+			w.Links = append(w.Links, procsim.Link{Path: "bin/kubectl", Target: "/usr/bin/cat"})
+		}
+		// (one argument: with several, cat's own "print what exists, fail for
+		// the rest" would be judged instead of the wrapper)
+		inv.Args = append(inv.Args, input)
+		if r.Chance(0.3) {
+			// more than a pipe buffer of output for one argument
+			for i := range w.Files {
+				if len(w.Files[i].Docs) > 0 {
+					if m, ok := w.Files[i].Docs[0].V.(map[string]any); ok {
+						m["pad"] = strings.Repeat("0123456789abcdef", gen.PickAny(r, []int{300, 4096, 4200, 9000}))
+						break
+					}
+				}
+			}
+		}
 	}
-	if c.Tool != "bkl" && r.Chance(0.2) {
+	if c.Tool != "bkl" && c.Tool != "bklb" && c.Tool != "kubectl-bkl" && r.Chance(0.2) {
 		inv.Args = append([]string{"-f", r.Pick("json", "yaml", "toml", "json-pretty")}, inv.Args...)
 	}
 
@@ -572,12 +598,20 @@ func c08OutputFormat(c *C08Case) string {
 			return c.Inv.Args[i+1]
 		}
 	}
+	first, n := "", 0
 	for _, a := range c.Inv.Args {
 		if !strings.HasPrefix(a, "-") && a != c.OutFile {
-			return procsim.Ext(a)
+			if n == 0 {
+				first = procsim.Ext(a)
+			}
+			n++
 		}
 	}
-	return ""
+	if (c.Tool == "bklb" || c.Tool == "kubectl-bkl") && n > 1 {
+		// cat prints one stream per argument, each in its own format
+		return ""
+	}
+	return first
 }
 
 // judgeC08 runs the case and applies the trichotomy.
@@ -594,6 +628,8 @@ func judgeC08(e *Env, c *C08Case, tag string, run int64) (*c08Obs, *procsim.Outc
 		switch {
 		case out.Crash != "":
 			viol("crash", out.Crash)
+		case out.Blocked:
+			viol("no-termination-blocked-forever", "every thread slept for 10 s without consuming CPU time while nothing was left to wait for")
 		case out.StepsOut:
 			viol("no-termination-within-step-budget", fmt.Sprintf("%d evaluator steps", ProcStepBudget))
 		case out.CPUOut:
